@@ -28,7 +28,7 @@ W   s<k> summary = PD k | n none | x<exc>          T   c<k> contents → PD k | 
 M   r<warning ids csv|-> | x<exc>                 F   - | csv of <tag 0 plain,1 rtype,2 type,3 ivar>/<body k>/<lineno>[/<arg obj|->]
 errs  - | `;`-joined <descr n>/<line|n>/<fatal 0/1>
 ```
-Answer: `ok <out> ; <out> … | E <sec>.<obj>,… | R <obj>.<sec>.<descr>.<offset>,… | M <0|1> | O <id>=<parsed>/<summary>/<parsed_type> …`
+Answer: `ok <out> ; <out> … | E <sec>.<obj>,… | R <obj>.<sec>.<descr>.<offset>,… | P <sec>.<obj>.<p|r>,… | M <0|1> | O <id>=<parsed>/<summary>/<parsed_type> …`
 -/
 namespace Docstring
 
@@ -297,6 +297,7 @@ def mkSt (d : Decls) : St where
   errors := []
   reports := []
   importMsg := false
+  reported := []
 
 def showStan : Stan → String
   | .pre t => "pre:" ++ Proto.encodeStr t
@@ -365,6 +366,11 @@ def showReport (r : Report) : String :=
 
 def pairLe (a b : Sec × Obj) : Bool := a.1 < b.1 || (a.1 == b.1 && a.2 ≤ b.2)
 
+def phaseNum : Phase → Nat | .parsing => 0 | .rendering => 1
+
+def keyLe (a b : Sec × Obj × Phase) : Bool :=
+  a.1 < b.1 || (a.1 == b.1 && (a.2.1 < b.2.1 || (a.2.1 == b.2.1 && phaseNum a.2.2 ≤ phaseNum b.2.2)))
+
 def showList (l : List String) : String := if l.isEmpty then "-" else ",".intercalate l
 
 def kv (key : String) (tok : String) : Option String :=
@@ -401,6 +407,8 @@ def handle (args : List String) : String :=
         "ok " ++ " ; ".intercalate (r.1.map showXOut)
           ++ " | E " ++ showList ((st.errors.mergeSort pairLe).map fun p => toString p.1 ++ "." ++ toString p.2)
           ++ " | R " ++ showList (st.reports.map showReport)
+          ++ " | P " ++ showList ((st.reported.mergeSort keyLe).map fun k =>
+                toString k.1 ++ "." ++ toString k.2.1 ++ "." ++ (if k.2.2 == .parsing then "p" else "r"))
           ++ " | M " ++ (if st.importMsg then "1" else "0")
           ++ " | O " ++ " ".intercalate (d.objs.map fun o =>
                 toString o.id ++ "=" ++ showPd (st.objs o.id).parsed ++ "/" ++ showPd (st.objs o.id).parsedSummary
